@@ -219,7 +219,7 @@ def churn_shard(shard, nshards, seed, tier, exe, nhist):
                     plan.append(("snap", list(model.items())))
             # delete-current-while-iterating at chosen positions
             mask = rng.getrandbits(min(len(model), 60)) if model else 0
-            cmds.append("OITDEL 0 %d%s" % (mask, " v" if rng.random() < 0.4 else ""))
+            cmds.append("OITDEL 0 %d%s" % (mask, rng.choice([" v", " v", " i", "", ""])))   # (v: through the visitor; i: through a consumer compiled as strict ISO C99)
             items = list(model.items())
             plan.append(("itdel", items, mask))
             for pos, (k, v) in enumerate(items):
